@@ -646,4 +646,7 @@ def run(ctx):
             rule_decimal_arguments(prog)]
 
 
-SELFTESTS = []
+SELFTESTS = [
+    (rule_every_slot_visited, ["c04_mmb_bad.cc"], ["c04_mmb_good.cc"], "table-loop"),
+    (rule_decimal_arguments, ["c04_arg_bad.cc"], ["c04_arg_good.cc"], "stol"),
+]
